@@ -17,6 +17,7 @@ package main
 
 import (
 	"fmt"
+	"sort"
 	"strings"
 
 	. "verifharness/hlib"
@@ -173,9 +174,17 @@ func cacheHash(bits int, argb uint32) int { return int((argb * 0x1e35a7bd) >> (3
 // ---------------------------------------------------------------- prefix codes
 
 // randomCompleteLengths draws a complete code with n >= 2 leaves and depth <= maxLen.
+// deepCodes (set while a `deep` covering plan is generated): every normal code is a chain 1,2,...,14,15,15
+// (at least 16 symbols), and the symbols the tokens use most expensively - length and cache symbols of the
+// green alphabet, every used distance symbol - get the 15-bit code words
+var deepCodes bool
+
 func randomCompleteLengths(rng *Rand, n, maxLen int) []int {
 	leaves := []int{0}
 	deep := rng.Intn(3) == 0 // skewed (long code words) or bushy
+	if deepCodes {
+		deep = true
+	}
 	for len(leaves) < n {
 		var cand []int
 		best := -1
@@ -188,7 +197,7 @@ func randomCompleteLengths(rng *Rand, n, maxLen int) []int {
 			}
 		}
 		i := cand[rng.Intn(len(cand))]
-		if deep && rng.Intn(4) != 0 {
+		if deep && (deepCodes || rng.Intn(4) != 0) {
 			i = best
 		}
 		d := leaves[i]
@@ -218,7 +227,7 @@ func makeCode(rng *Rand, alphabet int, used map[int]bool, cov map[string]int) pc
 			simpleOK = false
 		}
 	}
-	if simpleOK && rng.Intn(3) != 0 {
+	if simpleOK && rng.Intn(3) != 0 && !deepCodes {
 		syms := append([]int{}, u...)
 		lim := alphabet
 		if lim > 256 {
@@ -256,6 +265,9 @@ func makeCode(rng *Rand, alphabet int, used map[int]bool, cov map[string]int) pc
 	for i := 0; i < extra; i++ {
 		set[rng.Intn(alphabet)] = true
 	}
+	for deepCodes && len(set) < 16 && len(set) < alphabet {
+		set[rng.Intn(alphabet)] = true
+	}
 	if len(set) == 0 {
 		set[rng.Intn(alphabet)] = true
 	}
@@ -267,9 +279,34 @@ func makeCode(rng *Rand, alphabet int, used map[int]bool, cov map[string]int) pc
 		cov["code:normal-single-symbol"]++
 	} else {
 		ls := randomCompleteLengths(rng, len(set), 15)
+		if deepCodes {
+			// longest code words first; symbols are visited from the top of the alphabet (length / cache /
+			// distance symbols with many extra bits) when they are used by a token, then the rest
+			sort.Sort(sort.Reverse(sort.IntSlice(ls)))
+			k := 0
+			for s := alphabet - 1; s >= 0; s-- {
+				if set[s] && used[s] && (alphabet <= 256 || s >= 256) {
+					lens[s] = ls[k]
+					k++
+				}
+			}
+			for s := alphabet - 1; s >= 0; s-- {
+				if set[s] && lens[s] == 0 {
+					lens[s] = ls[k]
+					k++
+				}
+			}
+			cov["code:deep-chain"]++
+		}
 		i := 0
 		mx := 0
 		for s := 0; s < alphabet; s++ {
+			if set[s] && deepCodes {
+				if lens[s] > mx {
+					mx = lens[s]
+				}
+				continue
+			}
 			if set[s] {
 				lens[s] = ls[i]
 				if ls[i] > mx {
@@ -616,12 +653,17 @@ type planOpts struct {
 	cacheBits  int      // > 0: main image cache bits
 	allDCs     bool     // every distance code 1..120 is used
 	randomLits bool     // main literals uniformly random
+	deep       bool     // chain codes with 15-bit code words on the expensive symbols, many long copies
 }
 
 func genPlan(rng *Rand, maxDim int) *pplan { return genPlanOpts(rng, maxDim, planOpts{}) }
 
 func genPlanOpts(rng *Rand, maxDim int, po planOpts) *pplan {
 	p := &pplan{cov: map[string]int{}}
+	if po.deep {
+		deepCodes = true
+		defer func() { deepCodes = false }()
+	}
 	p.w, p.h = rng.Range(1, maxDim), rng.Range(1, maxDim)
 	switch rng.Intn(8) {
 	case 0:
@@ -768,7 +810,7 @@ func genPlanOpts(rng *Rand, maxDim int, po planOpts) *pplan {
 		mainLit = func(r *Rand, pos int) uint32 { return uint32(r.U64()) }
 	}
 	mo := eimgOpts{w: cw, h: p.h, lit: mainLit,
-		gidx: gidx, ngroups: ngroups, maxCache: rng.Pick(0, 2, 6, 11, 11), copyProb: rng.Pick(0, 5, 20, 50), cov: p.cov, forceCB: po.cacheBits}
+		gidx: gidx, ngroups: ngroups, maxCache: rng.Pick(0, 2, 6, 11, 11), copyProb: deepCopyProb(rng, po), cov: p.cov, forceCB: po.cacheBits}
 	if po.allDCs {
 		for dc := 1; dc <= 120; dc++ {
 			mo.forceDCs = append(mo.forceDCs, dc)
@@ -794,8 +836,21 @@ func genPlanOpts(rng *Rand, maxDim int, po planOpts) *pplan {
 }
 
 // coverPlans: plans that hit, in every run, the features a random draw may miss.
+func deepCopyProb(rng *Rand, po planOpts) int {
+	if po.deep {
+		return 35
+	}
+	return rng.Pick(0, 5, 20, 50)
+}
+
 func coverPlans(rng *Rand) []*pplan {
 	var ps []*pplan
+	// worst-case bit consumption between two refills of the decoder's bit window: 15-bit code words for the
+	// length symbols (up to 10 extra bits) and the distance symbols (up to 18 extra bits), copies after
+	// literal runs of every length so that every alignment of the window is met
+	for i := 0; i < 8; i++ {
+		ps = append(ps, genPlanOpts(rng.Fork(), 0, planOpts{w: 64, h: rng.Range(48, 64), fixTs: true, deep: true}))
+	}
 	// > 256 prefix-code groups, tiles referring to groups >= 256 (red byte of the entropy image), random
 	// literals so that every group has its own codes
 	for i := 0; i < 3; i++ {
